@@ -141,6 +141,23 @@ fn probe(a: &[String]) {
                 println!("    hook {ev:?}");
             }
         }
+        Some("classify") => {
+            // probe classify <FieldType> <content>: the reference acceptor's verdict and the library's
+            let specs = spec::fieldfmt::specs();
+            let sp = specs.iter().find(|x| x.ty == a[1]).expect("spec");
+            let input = unesc(&a[2]);
+            println!("reference: {:?}", spec::fieldfmt::classify(sp, &input));
+            let ops = registry::field(&a[1]).expect("field type");
+            println!("library:   {}", match (ops.parse)(&input) { Ok(v) => format!("accepts -> {:?}", v.to_swift()), Err(e) => format!("rejects: {e}") });
+        }
+        Some("candidates") => {
+            let specs = spec::fieldfmt::specs();
+            let sp = specs.iter().find(|x| x.ty == a[1]).expect("spec");
+            let mut r = rng::Rng::new(0, "probe", 0);
+            for c in spec::fieldfmt::candidates(sp, 0, &mut r, 0) {
+                println!("{:32} {:24} {:?}  => {:?}", c.class, c.component, c.content, spec::fieldfmt::classify(sp, &c.content));
+            }
+        }
         Some("full") => {
             let input = unesc(&a[1]);
             match swift_mt_message::SwiftParser::parse_auto(&input) {
